@@ -26,7 +26,8 @@ impl RandomPolicy {
     fn incr_mem_usage(&self, value: u64) -> u64 {
         let mut usage = self
             .memory_usage
-            .fetch_add(value, atomic::Ordering::Release);
+            .fetch_add(value, atomic::Ordering::Release)
+            .wrapping_add(value);
 
         let mut small_rng = SmallRng::from_entropy();
         while usage > self.memory_limit {
@@ -35,7 +36,7 @@ impl RandomPolicy {
 
             let max = self.store.len();
             if max == 0 {
-                self.decr_mem_usage(usage);
+                self.decr_mem_usage(usage.wrapping_sub(value));
                 break;
             }
             let item = small_rng.gen_range(0..max);
@@ -55,7 +56,7 @@ impl RandomPolicy {
                 Some(val) => {
                     let len = val.1.len();
                     debug!("Evicted: {} bytes from storage", len);
-                    usage = self.decr_mem_usage(len as u64);
+                    usage = self.decr_mem_usage(len as u64).wrapping_sub(len as u64);
                 }
                 None => {}
             });
